@@ -50,4 +50,5 @@ c1d8696 C12 C01
 b07ea5c C05
 c49c330 C20
 21f8a1e C10
+7a3b114 C16
 LIST
